@@ -15,7 +15,7 @@ RULE = ('as C01 but biased to time: backoff tables over {0,1,1,5,30,300} '
         'attempts or was pre-loaded/announced/flushed; distinct = distinct '
         'event-log digest')
 COMPONENTS = qc.COMPONENTS
-BUDGET = {'quick': 5000, 'thorough': 300000}
+BUDGET = {'quick': 15000, 'thorough': 300000}
 PROBES = ['retry-round', 'preloaded', 'announced-by-second-queue',
           'flush-call', 'flush-with-waiting-message', 'requeue-after-flush',
           'equal-due-times', 'backoff-0-retry', 'announcement',
